@@ -306,6 +306,69 @@ theorem checkedLines_subset_executed (tr : Trace) (crits : List Nat)
   obtain ⟨c, hcm, hl⟩ := hl
   exact sliceLines_subset_executed tr c (hc c hcm) l hl
 
+/-! ## 5b. `compute_statement_checked_lines`: cleansing is per statement, accumulation is monotone -/
+
+theorem mem_cleanse {tr : Trace} {rn : Nat → Bool} {sl lines : List Nat} {l : Nat} :
+    l ∈ cleanse tr rn sl lines ↔ l ∈ lines ∧ cleanseLine tr rn sl ≠ some l := by
+  unfold cleanse
+  cases h : cleanseLine tr rn sl with
+  | none => simp
+  | some x =>
+    simp only [List.mem_filter, bne_iff_ne, ne_eq, Option.some.injEq]
+    constructor
+    · rintro ⟨h1, h2⟩; exact ⟨h1, fun e => h2 e.symm⟩
+    · rintro ⟨h1, h2⟩; exact ⟨h1, fun e => h2 e.symm⟩
+
+theorem cleanse_subset {tr : Trace} {rn : Nat → Bool} {sl lines : List Nat} :
+    ∀ l ∈ cleanse tr rn sl lines, l ∈ lines := fun _ h => (mem_cleanse.1 h).1
+
+/-- The cleansed line is the line of a `return None` step of the slice. -/
+theorem cleanseLine_spec {tr : Trace} {rn : Nat → Bool} {sl : List Nat} {l : Nat}
+    (h : cleanseLine tr rn sl = some l) : ∃ r ∈ sl, rn r = true ∧ (evAt tr r).line = l := by
+  unfold cleanseLine at h
+  split at h
+  · next x r q t hrev =>
+    split at h
+    · next hc =>
+      simp only [Bool.and_eq_true] at hc
+      refine ⟨r, ?_, hc.1, by simpa using h⟩
+      have : r ∈ sl.reverse := by rw [hrev]; simp
+      simpa using this
+    · exact absurd h (by simp)
+  · exact absurd h (by simp)
+
+theorem mem_stmtCheckedLoop {tr : Trace} {rn : Nat → Bool} (crits : List Nat) :
+    ∀ (acc : List Nat) (l : Nat),
+      l ∈ stmtCheckedLoop tr rn crits acc ↔ l ∈ acc ∨ ∃ c ∈ crits, l ∈ stmtLines tr rn c := by
+  induction crits with
+  | nil => intro acc l; simp [stmtCheckedLoop]
+  | cons c rest ih =>
+    intro acc l
+    simp only [stmtCheckedLoop, ih, List.mem_append, List.mem_cons, exists_eq_or_imp]
+    constructor
+    · rintro ((h | h) | h)
+      · exact Or.inl h
+      · exact Or.inr (Or.inl h)
+      · exact Or.inr (Or.inr h)
+    · rintro (h | h | h)
+      · exact Or.inl (Or.inl h)
+      · exact Or.inl (Or.inr h)
+      · exact Or.inr h
+
+theorem mem_stmtCheckedLines {tr : Trace} {rn : Nat → Bool} {crits : List Nat} {l : Nat} :
+    l ∈ stmtCheckedLines tr rn crits ↔ ∃ c ∈ crits, l ∈ stmtLines tr rn c := by
+  simp [stmtCheckedLines, mem_stmtCheckedLoop]
+
+theorem stmtLines_subset_sliceLines {tr : Trace} {rn : Nat → Bool} {c : Nat} :
+    ∀ l ∈ stmtLines tr rn c, l ∈ sliceLines tr c := fun _ h => cleanse_subset _ h
+
+theorem stmtCheckedLines_subset_executed (tr : Trace) (rn : Nat → Bool) (crits : List Nat)
+    (hc : ∀ c ∈ crits, c < tr.length) :
+    ∀ l ∈ stmtCheckedLines tr rn crits, l ∈ executedLines tr := by
+  intro l hl
+  obtain ⟨c, hcm, hl⟩ := mem_stmtCheckedLines.1 hl
+  exact sliceLines_subset_executed tr c (hc c hcm) l (stmtLines_subset_sliceLines l hl)
+
 /-! ## 6. Semantic reading: replaying a super-set of the slice -/
 
 section Replay
